@@ -362,6 +362,22 @@ func buildWeirdCase(r *rng, feats map[string]int, tier string) *c06Case {
 		parts["word/endnotes.xml"] = []byte(strings.ReplaceAll(variants[r.intn(len(variants))], "footnote", "endnote"))
 		feats["notes parts present (good or damaged)"]++
 	}
+	// entries with unusual names: media without an extension or a number, directories, names that collide with the
+	// library's own parts after cleaning, very long names
+	if r.chance(25) {
+		odd := []string{"word/media/image1", "word/media/image", "word/media/image.", "word/media/images/photo", "word/media/imageZ.png",
+			"word/media/image-1.png", "word/media/image99999999999999999999.png", "word/media/", "word/", "/word/document.xml", "word\\document.xml",
+			"../evil.xml", "word/_rels/", "[Content_Types].xml/", "word/média/imagé1.png", "word/media/image1.png.", "word/media/.png",
+			"word/header", "word/header.xml", "word/headerX.xml", "word/footer1", "docProps/", "word/media/image07.PNG", strings.Repeat("d/", 200) + "x.xml",
+			"word/styles.xml/", "word/numbering", "word/_rels/document.xml.rels/", "_rels/", "word/document.xml.bak", "word/theme/theme1.xml"}
+		for k := r.rangeI(1, 4); k > 0; k-- {
+			n := odd[r.intn(len(odd))]
+			if _, dup := parts[n]; !dup {
+				parts[n] = []byte([]string{"", "x", "<a/>", string(imageBytes("png", 3))}[r.intn(4)])
+			}
+		}
+		feats["package entries with unusual names"]++
+	}
 	c.data = foreignZip(parts)
 	return c
 }
@@ -486,6 +502,9 @@ func rectangular(t *document.Table) bool {
 // light: the document nests thousands of levels deep; saving it is quadratic in the depth (the indentation of the
 // written XML), which is slow, not wrong - it is read and edited but not saved (the quick tier saves documents of up
 // to 3000 levels)
+var reflCalled int
+var reflAlso = map[string]int{}
+
 func exerciseDoc(d *document.Document, r *rng, light bool) (ps []panicRec, notes []string) {
 	guard("Body.GetParagraphs", &ps, func() {
 		for _, p := range d.Body.GetParagraphs() {
@@ -579,6 +598,22 @@ func exerciseDoc(d *document.Document, r *rng, light bool) (ps []panicRec, notes
 	var saved []byte
 	if light {
 		return
+	}
+	// every exported method of the document, its tables and its paragraphs, with made-up arguments; a panic counts
+	// when the same call does not panic on a document that was never opened
+	seed := r.next()
+	if pan, calls := reflCalls(d, seed, os.TempDir(), reflOpts{}); true {
+		reflCalled += len(calls)
+		if len(pan) > 0 {
+			twin, _ := reflCalls(apiTwin(), seed, os.TempDir(), reflOpts{})
+			for k, p := range pan {
+				if _, also := twin[k]; also {
+					reflAlso[k]++
+					continue
+				}
+				ps = append(ps, p)
+			}
+		}
 	}
 	guard("ToBytes after edits", &ps, func() {
 		b, err := d.ToBytes()
